@@ -369,6 +369,64 @@ func gen() ([]byte, error) {
 		})
 		vrows = append(vrows, fmt.Sprintf("(%s, [%s])", tx.CoqString(x.recv+".Run"), strings.Join(ts, "; ")))
 	}
-	b.WriteString("Definition c12_vis_run : list (string * list string) := [\n  " + strings.Join(vrows, ";\n  ") + "\n].\n")
+	b.WriteString("Definition c12_vis_run : list (string * list string) := [\n  " + strings.Join(vrows, ";\n  ") + "\n].\n\n")
+
+	// pkg/util/util/util.go RandIDWithLen: what happens when rand.Read fails; server/service.go RegisterControl:
+	// what happens when RandID fails.  (The model: the RandID oracle may fail, and then there is no session.)
+	utilF, err := parser.ParseFile(fset, filepath.Join(tx.Repo, "pkg/util/util/util.go"), nil, 0)
+	if err != nil {
+		return nil, err
+	}
+	var rt []string
+	for _, d := range utilF.Decls {
+		fd, ok := d.(*ast.FuncDecl)
+		if !ok || fd.Name.Name != "RandIDWithLen" {
+			continue
+		}
+		for i, st := range fd.Body.List {
+			if as, ok := st.(*ast.AssignStmt); ok && strings.Contains(show(as.Rhs[0]), "rand.Read(") {
+				rt = append(rt, "RandRead")
+				if i+1 < len(fd.Body.List) {
+					if ifs, ok := fd.Body.List[i+1].(*ast.IfStmt); ok && show(ifs.Cond) == "err != nil" && len(ifs.Body.List) == 1 {
+						if r, ok := ifs.Body.List[0].(*ast.ReturnStmt); ok && len(r.Results) == 0 {
+							rt = append(rt, "IfErrReturnErr")
+							continue
+						}
+					}
+					rt = append(rt, "Unknown:"+show(fd.Body.List[i+1]))
+				}
+			}
+		}
+	}
+	svcF, err := parser.ParseFile(fset, filepath.Join(tx.Repo, "server/service.go"), nil, 0)
+	if err != nil {
+		return nil, err
+	}
+	if rc := findMethod(svcF, "Service", "RegisterControl"); rc != nil {
+		ast.Inspect(rc.Body, func(n ast.Node) bool {
+			blk, ok := n.(*ast.BlockStmt)
+			if !ok {
+				return true
+			}
+			for i, st := range blk.List {
+				if as, ok := st.(*ast.AssignStmt); ok && len(as.Rhs) == 1 && show(as.Rhs[0]) == "util.RandID()" {
+					rt = append(rt, "LoginRandID")
+					if i+1 < len(blk.List) {
+						if ifs, ok := blk.List[i+1].(*ast.IfStmt); ok && show(ifs.Cond) == "err != nil" && len(ifs.Body.List) == 1 && show(ifs.Body.List[0]) == "return err" {
+							rt = append(rt, "IfErrRefuseLogin")
+							continue
+						}
+						rt = append(rt, "Unknown:"+show(blk.List[i+1]))
+					}
+				}
+			}
+			return true
+		})
+	}
+	var rts []string
+	for _, t := range rt {
+		rts = append(rts, tx.CoqString(t))
+	}
+	b.WriteString("Definition c12_randid : list string := [" + strings.Join(rts, "; ") + "].\n")
 	return b.Bytes(), nil
 }
